@@ -19,6 +19,8 @@ class Prop(Bip32Prop):
         for il in [0, 1, N - 1, N, N + 1, 2 ** 256 - 1] + ([2, N - 2, N + 12345] if T else []):
             cases.append({"kind": "Master", "seed": bytes(rng.randrange(256) for _ in range(rng.choice([16, 32, 64]))).hex(),
                           "testnet": il % 2 == 0, "stub": {"0": (il.to_bytes(32, "big") + ir).hex()}, "note": "IL=%s" % hex(il)})
+            cases.append({"kind": "MasterRaw", "seed": bytes(rng.randrange(256) for _ in range(32)).hex(),
+                          "testnet": il % 2 == 1, "stub": {"0": (il.to_bytes(32, "big") + ir).hex()}, "note": "raw IL=%s" % hex(il)})
         cases.append({"kind": "Master", "seed": "00" * 16, "testnet": False})
         # private derivation
         ils = ["n", "n+1", "max", "n-k", "n-k+1", "n-k-1", "0", "n-1"]
